@@ -96,9 +96,36 @@ ATTRS = {
 }
 
 
+# rdflib's term classes are modelled by the same datatype (A-RDFLIB): URIRef ~ IRI(str value), BNode ~ BNode(str value),
+# Literal ~ Lit(lexical form = str(term), language, datatype); URIRef and BNode are str subclasses, so str(term) and
+# passing the object where a str is expected give the string value.  rdflib has no quoted-triple term.
+RDFLIB_CLASS_OF = {"URIRef": GTerm.is_IRI, "Literal": GTerm.is_Lit, "BNode": GTerm.is_BNode}
+RDFLIB_DEFAULT_GRAPH = "urn:x-rdflib:default"
+RDFLIB_ATTRS = {
+    "language": (GTerm.is_Lit, lambda t: Opt(z3.Not(GTerm.has_lang(t)), GTerm.lang(t))),
+    "datatype": (GTerm.is_Lit, lambda t: Opt(z3.Not(GTerm.has_dt(t)), GTerm.dt(t))),
+}
+
+
+def term_str(t: Any) -> Any:
+    return z3.If(GTerm.is_IRI(t), GTerm.iri(t), z3.If(GTerm.is_BNode(t), GTerm.ident(t), GTerm.lex(t)))
+
+
 class TermFamily:
     sort = GTerm
     name = "gterm"
+
+    def as_str(self, eng: Any, st: Any, v: ADT) -> Any:
+        return term_str(v.expr)
+
+    def to_str(self, eng: Any, st: Any, v: ADT, node: Any):
+        # str(term): defined for the rdflib reading of the datatype only (the generic classes' __str__ is an N-Triples
+        # rendering and is never used by the code under contract)
+        for st1, ok in eng.branch(st, Or(GTerm.is_IRI(v.expr), GTerm.is_BNode(v.expr), GTerm.is_Lit(v.expr)), f"L{getattr(node, 'lineno', 0)}str-term"):
+            if ok:
+                yield st1, term_str(v.expr)
+            else:
+                raise Unsupported("str() of a term that is not an IRI, blank node or literal", node)
 
     def invariant(self, x: Any) -> list:
         return unfold(x)
@@ -118,6 +145,8 @@ class TermFamily:
                 return rec(v.expr)
             return False     # not a subclass relationship with any other pyjelly class
         if isinstance(c, ExtVal):
+            if c.name.startswith("rdflib.") and c.name.split(".")[-1] in RDFLIB_CLASS_OF:
+                return RDFLIB_CLASS_OF[c.name.split(".")[-1]](v.expr)
             if c.name == "builtins.tuple":
                 return GTerm.is_QTriple(v.expr)
             if c.name == "builtins.str":
@@ -126,9 +155,9 @@ class TermFamily:
         raise Unsupported("isinstance of a term against a non-class", node)
 
     def getattr(self, eng: Any, st: Any, v: ADT, attr: str, node: Any, ctx: Any):
-        if attr not in ATTRS:
+        if attr not in ATTRS and attr not in RDFLIB_ATTRS:
             raise Unsupported(f"attribute {attr} on a generic term", node)
-        rec, acc = ATTRS[attr]
+        rec, acc = ATTRS[attr] if attr in ATTRS else RDFLIB_ATTRS[attr]
         cond = rec(v.expr)
         for st1, ok in eng.branch(st, cond, f"L{getattr(node, 'lineno', 0)}attr-{attr}"):
             if ok:
@@ -153,9 +182,6 @@ class TermFamily:
     def typeof(self, eng: Any, st: Any, v: ADT, node: Any):
         from pyvc.values import ExtVal
         yield st, ExtVal("gterm.type")     # only ever formatted into an exception message
-
-    def as_str(self, eng: Any, st: Any, v: ADT) -> Any:
-        return None
 
     def describe(self, ex: Any, v: ADT) -> Any:
         return describe_term(ex, v.expr)
@@ -216,3 +242,5 @@ def describe_term(ex: Any, t: Any, depth_left: int = 4) -> Any:
 REGISTRY.adts["gterm"] = TermFamily()
 REGISTRY.global_overrides = getattr(REGISTRY, "global_overrides", {})
 REGISTRY.global_overrides[(GS, "DefaultGraph")] = ADT(GTerm.DefaultGraph, "gterm")
+REGISTRY.external_overrides = getattr(REGISTRY, "external_overrides", {})
+REGISTRY.external_overrides["rdflib.graph.DATASET_DEFAULT_GRAPH_ID"] = ADT(GTerm.IRI(z3.StringVal(RDFLIB_DEFAULT_GRAPH)), "gterm")
